@@ -14,6 +14,11 @@ GENERATOR_ASSUMPTIONS = [
 ]
 
 
+HUGE_LINKS = {"wide_ops": -1, "ranks": 1, "steps": 2, "ops_per_step": 2, "max_depth": 2, "flow_p": 0.0,
+              "meta_noise": False, "order": "grouped", "indent": None, "fractional": False, "tiny_events": False,
+              "boundary": False, "base_ts": 1000, "no_rank_meta": False, "duplicate_device": False}
+
+
 def _specs() -> Dict[str, Dict[str, Any]]:
     from .profiles import loader
     specs: Dict[str, Dict[str, Any]] = {}
@@ -33,6 +38,9 @@ def _specs() -> Dict[str, Dict[str, Any]]:
                 {"name": "faults", "args": {"faulty": True}, "runs": {"quick": 80, "thorough": 15000}},
                 {"name": "hugevocab", "args": {"faulty": False, "overrides": dict(symtab_huge)},
                  "runs": {"quick": 1 if pid == "C01" else 0, "thorough": 8 if pid == "C01" else 0}},
+                # one rank with more than 32,768 launches (host calls with a correlation id) under one operator
+                {"name": "hugelinks", "args": {"faulty": False, "overrides": dict(HUGE_LINKS)},
+                 "runs": {"quick": 1 if pid == "C02" else 0, "thorough": 8 if pid == "C02" else 3}},
             ],
             "rule": loader_rule,
             "assumptions": GENERATOR_ASSUMPTIONS,
@@ -72,7 +80,7 @@ def _specs() -> Dict[str, Dict[str, Any]]:
     ]
     specs["C09"] = {
         "id": "C09", "stream": "cp09", "profile": cp, "props": ["C09"], "level": "exploration",
-        "batches": [{"name": "histories", "args": {"kind": "c09"}, "runs": {"quick": 200, "thorough": 40000}}],
+        "batches": [{"name": "histories", "args": {"kind": "c09"}, "runs": {"quick": 360, "thorough": 40000}}],
         "rule": ("one evaluation = one simulated session over a causally consistent generated world: load, 1-2 critical-path "
                  "analyses (annotation window / instance range / env flags), then a history of recompute, re-weight k edges "
                  "(speed-up, slow-down, zero, set) + recompute, deepcopy and continue on the copy, look at the original again; "
